@@ -1,7 +1,7 @@
 #!/bin/bash
 # runall.sh [tier] : every claimed check, one after another; summary in /tmp/p/runall.txt
 cd /verif; T=${1:-quick}; : > /tmp/p/runall.txt
-for c in $(ls checks/C*.py | sed 's|checks/||; s|\.py||'); do
+for c in $(python3 -c 'import json; print(" ".join(c["property_id"] for c in json.load(open("MANIFEST.json"))["checks"]))'); do
   s=$(date +%s); timeout 3000 ./check $c --tier $T > /tmp/p/all-$c.log 2>&1; rc=$?
   echo "$c rc=$rc $(( $(date +%s) - s ))s $(tail -1 /tmp/p/all-$c.log | cut -c1-80)" >> /tmp/p/runall.txt
 done
